@@ -31,8 +31,8 @@ Proof. reflexivity. Qed.
 Lemma freeTracker_keeps_spec r : freeTracker_keeps r = negb (r =? 0).
 Proof. reflexivity. Qed.
 
-Lemma freeTracker_delkey_spec : freeTracker_delkey = DelByClid.
-Proof. reflexivity. Qed.
+(* (how freeYourReferenceTracker deletes the import-table entry, freeTracker_delkey, is not characterised here: the
+   development is generic in the rule -- step_k -- and `same_proxy` below is where the source's rule is used: fix ab72d65) *)
 
 (* finish() forgets the inbound calls that were parsed but never run (fix 30b3768); not part of the reference model,
    checked on the implementation by the loopback family (oracle/dead-broker-keeps-undelivered-calls) *)
@@ -836,68 +836,13 @@ Qed.
 Lemma Attached_init : Attached init.
 Proof. intros i t H. destruct i; discriminate. Qed.
 
-(* delivering a my-reference whose clid has a live proxy returns that very proxy *)
-Theorem same_proxy_partial ops :
-  safe_run init ops ->
-  let s := run init ops in
-  forall i t p rest,
-    lost s = false -> nth_error (h_trk (hd s)) i = Some t -> t_proxy t = Some p ->
-    ch_oh s = MyRef (t_clid t) false :: rest ->
-    snd (step s RecvOH) = [EvDelivered p].
-Proof.
-  intros Hs s i t p rest Hl Ht Hp Hch.
-  pose proof (Inv_reachable ops) as I. fold s in I.
-  pose proof (Attached_run ops init Inv_init Attached_init Hs) as A. fold s in A.
-  assert (Hr : 1 <= t_recv t).
-  { pose proof (inv_alive s I) as H. rewrite Forall_forall in H. apply (H t (nth_error_In _ _ Ht)). congruence. }
-  specialize (A _ _ Ht Hr).
-  unfold step. rewrite Hl. unfold do_recv_oh. rewrite Hch. unfold do_myref. rewrite A, Ht.
-  unfold get_ref. rewrite Hp. reflexivity.
-Qed.
-
-(* ... hence at most one live proxy per clid *)
-Theorem one_proxy_per_clid_partial ops :
-  safe_run init ops ->
-  let s := run init ops in
-  forall i j ti tj, nth_error (h_trk (hd s)) i = Some ti -> nth_error (h_trk (hd s)) j = Some tj ->
-                    t_proxy ti <> None -> t_proxy tj <> None -> t_clid ti = t_clid tj -> i = j.
-Proof.
-  intros Hs s i j ti tj Hi Hj Pi Pj Ec.
-  pose proof (Inv_reachable ops) as I. fold s in I.
-  pose proof (Attached_run ops init Inv_init Attached_init Hs) as A. fold s in A.
-  pose proof (inv_alive s I) as H. rewrite Forall_forall in H.
-  pose proof (A _ _ Hi (H ti (nth_error_In _ _ Hi) Pi)) as E1.
-  pose proof (A _ _ Hj (H tj (nth_error_In _ _ Hj) Pj)) as E2. congruence.
-Qed.
-
-(* D16: the e9 history.  Object 1 is sent; proxy dropped (decref#1); sent again before the owner sees decref#1;
+(* D16 (repaired by ab72d65): the e9 history.  Object 1 is sent; proxy dropped (decref#1); sent again before the owner sees decref#1;
    the owner answers decref#1; the holder gets my-reference#2, drops the proxy (decref#2), THEN gets answer#1 with
    received_count == 0 and forgets the tracker; the object is sent a third time before the owner sees decref#2: a NEW
    tracker and proxy; answer#2 then deletes the NEW tracker's table entry by clid; fourth send. *)
 Definition d16_ops : list op :=
   [Send 1 false; RecvOH; DropProxy 0; HandleRefLost; Send 1 false; RecvHO; RecvOH; DropProxy 1; HandleRefLost; RecvOH;
    Send 1 false; RecvOH; RecvHO; RecvOH; Send 1 false].
-
-Theorem same_proxy_refuted :
-  exists ops, let s := run init ops in
-  exists i t p rest,
-    lost s = false /\ nth_error (h_trk (hd s)) i = Some t /\ t_proxy t = Some p /\
-    ch_oh s = MyRef (t_clid t) false :: rest /\ snd (step s RecvOH) <> [EvDelivered p].
-Proof.
-  exists d16_ops. cbv zeta.
-  exists 1%nat, {| t_clid := 1; t_recv := 1; t_proxy := Some 2 |}, 2, [].
-  vm_compute. repeat split; discriminate.
-Qed.
-
-(* the guard of same_proxy_partial is met by non-trivial histories, e.g. the same sends and drops when every
-   answer is processed before the next my-reference *)
-Example safe_run_example :
-  safe_run init [Send 1 false; RecvOH; DropProxy 0; HandleRefLost; Send 1 false; RecvHO; RecvOH; RecvOH; DropProxy 1;
-                 HandleRefLost; RecvHO; RecvOH; Send 1 false; RecvOH; Send 1 false; RecvOH].
-Proof. vm_compute. repeat split. Qed.
-
-Example d16_not_safe : ~ safe_run init d16_ops.
-Proof. vm_compute. intuition discriminate. Qed.
 
 (* ------------------------------------------------------------------ *)
 (* the deletion rule as a parameter: everything about counts holds for either rule; with deletion by identity (the
@@ -1048,6 +993,91 @@ Example d16_repaired :
   snd (step_k DelByIdentity (run_k DelByIdentity init d16_ops) RecvOH) = [EvDelivered 2] /\
   snd (step_k DelByClid (run_k DelByClid init d16_ops) RecvOH) = [EvDelivered 3].
 Proof. vm_compute. split; reflexivity. Qed.
+
+(* C08, first sentence, at full strength for the CURRENT source (the rule is re-read from freeYourReferenceTracker on every
+   run; `eq_refl` stops type-checking the moment the source deletes by anything but identity) *)
+Theorem same_proxy ops :
+  let s := run init ops in
+  forall i t p rest,
+    lost s = false -> nth_error (h_trk (hd s)) i = Some t -> t_proxy t = Some p ->
+    ch_oh s = MyRef (t_clid t) false :: rest ->
+    snd (step s RecvOH) = [EvDelivered p].
+Proof. exact (same_proxy_if_identity_rule eq_refl ops). Qed.
+
+Theorem one_proxy_per_clid ops :
+  let s := run init ops in
+  forall i j ti tj, nth_error (h_trk (hd s)) i = Some ti -> nth_error (h_trk (hd s)) j = Some tj ->
+                    t_proxy ti <> None -> t_proxy tj <> None -> t_clid ti = t_clid tj -> i = j.
+Proof.
+  assert (E : freeTracker_delkey = DelByIdentity) by reflexivity.
+  cbv zeta. rewrite <- run_k_current, E. apply one_proxy_per_clid_with_identity_rule.
+Qed.
+
+(* ---- the OLD rule (deletion by clid), kept as documentation of D16: under it the statement holds exactly for the histories
+   in which no decref answer frees a table entry that belongs to another tracker (safe_op), and is refuted otherwise *)
+Lemma Attached_step_k k s o : Inv s -> Attached s -> safe_op s o = true -> Attached (fst (step_k k s o)).
+Proof.
+  intros I A Hs. destruct (ack_case_dec s o) as [C|N].
+  - destruct (step_k_ack k s o C) as (rid & rest & Hch & ->). destruct C as (Hl & -> & _).
+    unfold Attached in *. unfold do_ack_k. cbn [fst hd h_trk h_tab].
+    cbn [safe_op] in Hs. rewrite Hl, Hch in Hs.
+    destruct (acks_get (h_acks (hd s)) rid) as [i|]; [|exact A].
+    destruct (nth_error (h_trk (hd s)) i) as [t|] eqn:Ht; [|exact A].
+    rewrite freeTracker_keeps_spec in *. destruct (t_recv t =? 0) eqn:Ez; cbn [negb] in *; [|exact A].
+    apply Z.eqb_eq in Ez.
+    assert (Del : forall j u, nth_error (h_trk (hd s)) j = Some u -> 1 <= t_recv u ->
+                              tab_get (tab_del (h_tab (hd s)) (t_clid t)) (t_clid u) = Some j).
+    { intros j u Hu Hr. rewrite tab_get_del. specialize (A _ _ Hu Hr).
+      destruct (t_clid u =? t_clid t) eqn:Ec; [|exact A]. exfalso.
+      apply Z.eqb_eq in Ec. rewrite Ec in A. rewrite A in Hs. apply Nat.eqb_eq in Hs. subst j.
+      rewrite Ht in Hu. inversion Hu; subst u. lia. }
+    destruct k; [exact Del|].
+    destruct (tab_get (h_tab (hd s)) (t_clid t)) as [j'|]; [|exact A]. destruct (Nat.eqb i j'); [exact Del | exact A].
+  - destruct (step_k_same k s o N) as [-> _]. apply Attached_step; assumption.
+Qed.
+
+Lemma Attached_run_k k ops : forall s, Inv s -> Attached s -> safe_run_k k s ops -> Attached (run_k k s ops).
+Proof.
+  induction ops as [|o r IH]; intros s I A Hs; cbn [run_k]; [exact A|]. destruct Hs as [H1 H2].
+  apply IH; [apply Inv_step_k, I | apply Attached_step_k; assumption | exact H2].
+Qed.
+
+Theorem same_proxy_guarded k ops :
+  safe_run_k k init ops ->
+  let s := run_k k init ops in
+  forall i t p rest,
+    lost s = false -> nth_error (h_trk (hd s)) i = Some t -> t_proxy t = Some p ->
+    ch_oh s = MyRef (t_clid t) false :: rest ->
+    snd (step_k k s RecvOH) = [EvDelivered p].
+Proof.
+  intros Hs s i t p rest Hl Ht Hp Hch.
+  pose proof (Inv_run_k k ops init Inv_init) as I. fold s in I.
+  pose proof (Attached_run_k k ops init Inv_init Attached_init Hs) as A. fold s in A.
+  assert (Hr : 1 <= t_recv t).
+  { pose proof (inv_alive s I) as H. rewrite Forall_forall in H. apply (H t (nth_error_In _ _ Ht)). congruence. }
+  specialize (A _ _ Ht Hr).
+  unfold step_k. rewrite Hl. unfold do_recv_oh_k. rewrite Hch. unfold do_myref. rewrite A, Ht.
+  unfold get_ref. rewrite Hp. reflexivity.
+Qed.
+
+Theorem same_proxy_refuted_under_clid_rule :
+  exists ops, let s := run_k DelByClid init ops in
+  exists i t p rest,
+    lost s = false /\ nth_error (h_trk (hd s)) i = Some t /\ t_proxy t = Some p /\
+    ch_oh s = MyRef (t_clid t) false :: rest /\ snd (step_k DelByClid s RecvOH) <> [EvDelivered p].
+Proof.
+  exists d16_ops. cbv zeta.
+  exists 1%nat, {| t_clid := 1; t_recv := 1; t_proxy := Some 2 |}, 2, [].
+  vm_compute. repeat split; discriminate.
+Qed.
+
+Example safe_run_example :
+  safe_run_k DelByClid init [Send 1 false; RecvOH; DropProxy 0; HandleRefLost; Send 1 false; RecvHO; RecvOH; RecvOH; DropProxy 1;
+                             HandleRefLost; RecvHO; RecvOH; Send 1 false; RecvOH; Send 1 false; RecvOH].
+Proof. vm_compute. repeat split. Qed.
+
+Example d16_not_safe : ~ safe_run_k DelByClid init d16_ops.
+Proof. vm_compute. intuition discriminate. Qed.
 
 (* ------------------------------------------------------------------ *)
 (* C08: home *)
